@@ -114,6 +114,12 @@ impl Report {
         let known = self.known_findings();
         let mut violations = Vec::new();
         let mut known_hit = Vec::new();
+        // replay mode: only the replayed instance counts
+        if let Ok(k) = std::env::var("VERIF_REPLAY_KEY") {
+            let hit = self.findings.iter().any(|f| f.key == k);
+            println!("replay of {k}: {}", if hit { "still violated" } else { "no longer fires" });
+            self.findings.retain(|f| f.key == k);
+        }
         for f in &self.findings {
             if let Some((_, _, d)) = known.iter().find(|(p, k, _)| *p == self.prop && *k == f.key) {
                 known_hit.push((f.clone(), d.clone()));
